@@ -548,7 +548,8 @@ class JWSAuthnMethod(ClientAuthnMethod):
         except KeyError:
             _args = {}
 
-        _client_id = kwargs.get("client_id", _entity.client_id)
+        # The entity only knows about a configured client_id, a registered one is in the context
+        _client_id = kwargs.get("client_id") or _entity.client_id or _context.get_client_id()
 
         # construct the signed JWT with the assertions and add
         # it as value to the 'client_assertion' claim of the request
